@@ -475,6 +475,8 @@ func (l *Linter) lintErrorStatement(stmt *ast.ErrorStatement, ctx *context.Conte
 	// Fastly recommends to use error code between 600 and 699.
 	// https://developer.fastly.com/reference/vcl/statements/error/
 	switch t := stmt.Code.(type) {
+	case nil:
+		// "error;" without status code, nothing to lint
 	case *ast.Ident:
 		code := l.lint(t, ctx)
 		if code != types.IntegerType {
